@@ -93,7 +93,20 @@ class Check:
         if rank.get(status, 0) > rank.get(cur["status"], 0):
             cur["status"] = status
 
-    def error(self, msg):
+    def error(self, msg, replay=None):
+        """checker error (exit 3) - except for an index obligation that failed while the REAL code ran under the symbolic runtime
+        (`IndexOutOfBounds`: a gather / scatter outside the array, which JAX silently clamps or drops): that is a refuted
+        obligation of the code, reported as a violation"""
+        text = str(msg)
+        if "IndexOutOfBounds:" in text:
+            first = text.split("IndexOutOfBounds:", 1)[1].strip().splitlines()[0][:160]
+            where = text.split("IndexOutOfBounds:", 1)[0].strip(" :")[:120]
+            name = f"index obligation:{where + ' ' if where else ''}{first}"
+            if not any(v[0] == name for v in self.violations):
+                self.add({"name": name, "status": "refuted", "backend": "index-evaluation", "time_s": 0.0, "model": {}, "detail": text[:1500]})
+                self.violation(name, {"solver": "index-evaluation", "solver_output": text[:3000], "kind": "index", "replay": replay or {"reproduced": False}},
+                               reproduced=bool((replay or {}).get("reproduced", False)))
+            return
         self.errors.append(msg)
 
     # -- known findings ---------------------------------------------------------------------------
